@@ -91,7 +91,7 @@ def closeLoop (C : Cert) : Nat → List Item → List Item → Option (List Item
     let r := addNew acc todo (succsOf C it)
     closeLoop C f r.2 r.1
 
-def maxRhs (C : Cert) : Nat := C.rules.foldl (fun m p => max m p.rhs.length) 0
+def maxRhs (C : Cert) : Nat := (C.rules.toList.map fun p => p.rhs.length).foldl max 0
 
 /-- number of distinct items there can be (+ slack): enough fuel for any worklist run -/
 def itemBound (C : Cert) : Nat := C.rules.size * (maxRhs C + 1) * C.nt.size
